@@ -261,9 +261,69 @@ class C04(Prop):
                 data += wire.build_frame(wire.CLOSE, struct.pack("!H", 1000) + SUFFIX_SENTINEL)
         return bytes(data), viol_at, built
 
+    def run_after_close(self, case):
+        """A violating frame that FOLLOWS a valid server Close.  The property does not fix whether such a frame still has
+        to be reported (a client may stop reading at the peer's Close), so only what holds under either reading is
+        demanded: nothing of the violating frame or of what follows it is delivered, at most one ProtocolError is
+        yielded, the iterator ends - and the verdict is the same however the stream is cut into reads."""
+        v = dict(case["viol"])
+        deflate_on = int(case["deflate"]) == 1
+        cls = v["class"]
+        head = wire.build_frame(wire.TEXT, b"before the close")
+        close = wire.build_frame(wire.CLOSE, struct.pack("!H", 1000) + b"bye")
+        if cls in NEEDS_OPEN:
+            # the unfinished message is opened before the Close (control frames may be interleaved)
+            head += wire.build_frame(wire.BINARY, b"open-", fin=0)
+            v["open"] = True
+        data = head + close + violating_frames(v, deflate_on) + wire.build_frame(wire.TEXT, SUFFIX_SENTINEL)
+        deflate, reply, ws_opts, mcfg = extension_context(case["deflate"])
+        reply_len = len(httpref.build_reply(reply, b""))
+        cut = reply_len + len(head) + len(close)
+        reactions = []
+        if case.get("client_closing"):
+            reactions.append({"when": ["event", "ready", 0], "do": [["close", 1000, "bye"]]})
+        labels = {"after_server_close", "class:" + cls, ["plain", "deflate", "deflate_offered_declined"][int(case["deflate"])]}
+        verdicts = []
+        for seg in ("whole", ["cuts", [cut]], ["cuts", [cut - 1]], ["cuts", [cut + 1]], ["uniform", 7], "bytewise"):
+            scn = build.scenario(
+                [["wait_request"], ["stream", [["reply", reply], ["bytes", data]], seg, 0.0], ["eof", 0.0]],
+                ws_opts=ws_opts, reactions=reactions)
+            tr = simnet.run_scenario(scn)
+            names = tr.names()
+            if tr.hang:
+                return failed("hang", tr.hang, labels, True)
+            if tr.escaped:
+                return failed("escaped_exception", tr.escaped, labels, True)
+            if names[-1:] != ["disconnected"]:
+                return failed("no_terminal_event", "events=%s" % names, labels, True)
+            for e in tr.events:
+                if e["name"] not in simnet.MESSAGE_EVENTS:
+                    continue
+                raw = b""
+                for k in ("text", "data", "reason"):
+                    x = e.get(k)
+                    if x is not None:
+                        raw += x.encode("utf-8", "replace") if isinstance(x, str) else bytes(x)
+                if SUFFIX_SENTINEL in raw or VIOL_SENTINEL in raw:
+                    return failed("delivered_after_violation", "seg=%s: event %s carries content of / after the violating "
+                                  "frame that follows the server's Close; events=%s" % (seg, e["name"], names), labels, True)
+            npe = names.count("protocol_error")
+            if npe > 1:
+                return failed("protocol_error_count", "seg=%s: %d ProtocolError events; events=%s" % (seg, npe, names),
+                              labels, True)
+            verdicts.append((seg, [n for n in names if n != "poll"]))
+        if any(vd[1] != verdicts[0][1] for vd in verdicts):
+            return failed("verdict_depends_on_segmentation",
+                          "a violating frame after the server's Close is reported under one segmentation and not under "
+                          "another: %s" % verdicts, labels, True)
+        labels.add("after_close:" + ("reported" if "protocol_error" in verdicts[0][1] else "ignored"))
+        return held(labels, True)
+
     def run_case(self, case):
         if case.get("sched"):
             return self.run_sched(case)
+        if case.get("after_close"):
+            return self.run_after_close(case)
         if "hdr" in case:
             return self.run_header(case)
         if "stream" in case:
@@ -413,7 +473,17 @@ class C04(Prop):
         def scheduled():
             for c in inner.make():
                 yield dict(c, sched=True)
+        def after_close():
+            for c in CLASSES:
+                if c in ("text_bad_utf8_later_fragment", "text_bad_utf8_nonfinal_fragment"):
+                    continue
+                for a in range(4):
+                    for d in (0, 1):
+                        for closing in (False, True):
+                            yield {"after_close": True, "viol": {"class": c, "a": a, "b": a, "wide": False}, "deflate": d,
+                                   "client_closing": closing}
         return [Enumeration("all_65536_headers_x6_contexts", self.header_cases, exhaustive=True),
+                Enumeration("violation_after_a_valid_server_close_same_verdict_under_every_cut", after_close, exhaustive=True),
                 Enumeration("violation_met_while_another_thread_closes_or_sends", scheduled, exhaustive=True),
                 Enumeration("violating_payload_looks_like_a_template", templates, exhaustive=True),
                 after_every_prelude(battery), with_noise(battery), with_companion(battery), with_debug_log(battery)]
